@@ -24,6 +24,7 @@ structure VW.Inv (v : VW) (n : Nat) : Prop where
   len : v.data.len = if v.numRows = 0 then 0 else (v.numRows - 1) * v.stride + v.numCols
   inside : v.data.off + v.data.len ≤ n
   word : n < WORD
+  stride_word : v.stride < WORD      -- `stride` is a `usize`
 
 /-- absolute position (in the root buffer) of cell `(col,row)` of a view -/
 def VW.pos (v : VW) (col row : Nat) : Nat := v.data.off + row * v.stride + col
